@@ -646,9 +646,20 @@ func branchesOn(v ssa.Value) []*ssa.If {
 }
 
 func confidenceDescending(less *ssa.Function) bool {
-	if less == nil || len(less.Params) != 2 {
+	// a method value (sort.Slice(xs, ranked(xs).less)) arrives as go/ssa's bound-method wrapper: look at the method
+	if less != nil && strings.Contains(less.Synthetic, "bound method wrapper") {
+		core.InstrsOf(less, func(in ssa.Instruction) {
+			if c := core.CallOf(in); c != nil {
+				if m := core.StaticCallee(c); m != nil && m.Blocks != nil && len(m.Params) == 3 {
+					less = m
+				}
+			}
+		})
+	}
+	if less == nil || len(less.Params) < 2 || len(less.Params) > 3 {
 		return false
 	}
+	pi, pj := ssa.Value(less.Params[len(less.Params)-2]), ssa.Value(less.Params[len(less.Params)-1])
 	for _, ret := range core.Returns(less) {
 		b, ok := ret.Results[0].(*ssa.BinOp)
 		if !ok || b.Op != token.GTR {
@@ -661,7 +672,7 @@ func confidenceDescending(less *ssa.Function) bool {
 		}
 		ix, isIx := lx.(*ssa.IndexAddr)
 		iy, isIy := ly.(*ssa.IndexAddr)
-		if !isIx || !isIy || ix.Index != ssa.Value(less.Params[0]) || iy.Index != ssa.Value(less.Params[1]) {
+		if !isIx || !isIy || ix.Index != pi || iy.Index != pj {
 			return false
 		}
 	}
